@@ -37,10 +37,20 @@ func decodeAuto(b []byte, rev int, compressed bool) error {
 
 // C07 — a truncated block or message is never accepted.
 func C07(c *vk.Ctx) {
-	c.Rule("corpus = the C01 blocks (every registry composition x value sequences of length <= 1, length <= 2 for compositions of depth <= 1; thorough: length <= 2 everywhere) at revision 54460 and the C17 messages (base and every single-field deviation) at three revisions; for each encoding EVERY proper prefix is decoded through the typed target and, where the type is inferable, through Auto; the same blocks wrapped in None / LZ4 / ZSTD frames (one frame and two frames) are cut at every position of the framed stream. A prefix that the reference model parses as a complete message is not a truncation and is excluded. Large values (a string of 1 MiB + 11 bytes; thorough also 1 MiB, 2 MiB + 5, 128 KiB + 3) as the only, first, last, array-element, nullable, dictionary and map value of a block (plain and as a sequence of 1 MiB LZ4 frames) and as the last field of TableColumns / Exception / ClientData: cut at every byte of the first and last 80 bytes and around the value's start, within +-3 of every 64 KiB multiple from the stream start and from the value start, and every 4099th byte (a stated subset: cutting 1 MiB everywhere is 10^12 byte copies). Oracle: decoding returns an error, never nil. distinct_nontrivial = (encoding, cut position, decoder) cases.")
+	c.Rule("corpus = the C01 blocks (every registry composition, plus name-based enums with a member numbered 0, bare and under Array / Nullable; x value sequences of length <= 1, length <= 2 for compositions of depth <= 1; thorough: length <= 2 everywhere) at revision 54460 and the C17 messages (base and every single-field deviation) at three revisions; for each encoding EVERY proper prefix is decoded through the typed target and, where the type is inferable, through Auto; the same blocks wrapped in None / LZ4 / ZSTD frames (one frame and two frames) are cut at every position of the framed stream. A prefix that the reference model parses as a complete message is not a truncation and is excluded. Large values (a string of 1 MiB + 11 bytes; thorough also 1 MiB, 2 MiB + 5, 128 KiB + 3) as the only, first, last, array-element, nullable, dictionary and map value of a block (plain and as a sequence of 1 MiB LZ4 frames) and as the last field of TableColumns / Exception / ClientData: cut at every byte of the first and last 80 bytes and around the value's start, within +-3 of every 64 KiB multiple from the stream start and from the value start, and every 4099th byte (a stated subset: cutting 1 MiB everywhere is 10^12 byte copies). Oracle: decoding returns an error, never nil. distinct_nontrivial = (encoding, cut position, decoder) cases.")
 	quick := c.Quick()
 	rev := 54460
-	for ei, e := range regEntries(c) {
+	// besides the registry: name-based enums that have a member with the number 0 (a
+	// zero-filled buffer left behind by a short read then maps to valid names)
+	entries := append([]reg.Entry{}, regEntries(c)...)
+	for _, ddl := range []string{"Enum8('z' = 0, 'o' = 1)", "Enum16('z' = 0, 'o' = 300)"} {
+		ddl := ddl
+		entries = append(entries,
+			reg.Entry{Label: ddl, New: func() proto.Column { return reg.Enum(ddl) }},
+			reg.Entry{Label: "Array(" + ddl + ")", Depth: 1, New: func() proto.Column { return proto.NewArray[string](reg.Enum(ddl)) }},
+			reg.Entry{Label: "Nullable(" + ddl + ")", Depth: 1, New: func() proto.Column { return proto.NewColNullable[string](reg.Enum(ddl)) }})
+	}
+	for ei, e := range entries {
 		if c.Only == "" && !c.Mine(int64(ei)) {
 			continue
 		}
